@@ -1510,26 +1510,27 @@ def run_proc(binary, text, wall, cpu=None, env=None, abort=None):
         e.update(env)
     p = subprocess.Popen([binary], stdin=subprocess.PIPE, stdout=subprocess.PIPE, stderr=subprocess.PIPE, universal_newlines=True,
                          errors="replace", env=e, preexec_fn=pre if cpu else None)
-    import time as _t
-    t0 = _t.time()
-    inp = text
-    while True:
-        try:
-            out, err = p.communicate(inp, timeout=0.5 if abort else wall)
-            return p.returncode, out.splitlines(), err, False
-        except subprocess.TimeoutExpired:
-            inp = None                              # the input was handed over by the first call; retrying is the documented use
-            if abort and abort():                   # the run-wide hang cap was reached by another stream: stop this one now
-                p.kill()
-                out, err = p.communicate()
-                ls = (out or "").splitlines()
-                if ls and not (out or "").endswith("\n"):
-                    ls = ls[:-1]                    # a line cut by the kill is not an output
-                return -1000, ls, (err or "") + "[stopped: run-wide hang cap]", False
-            if _t.time() - t0 >= wall:
-                p.kill()
-                out, err = p.communicate()
-                return 124, (out or "").splitlines(), (err or "") + "[wall time-out after %ss]" % wall, True
+    # one blocking communicate(timeout=wall): no retry loop.  A stream that must stop early (run-wide hang cap) is killed by the
+    # thread that reaches the cap (HANG.kill_streams); the kill shows here as a negative return code with HANG.stopped set.
+    if abort:
+        with HANG.lock:
+            HANG.procs.add(p)
+    try:
+        out, err = p.communicate(text, timeout=wall)
+    except subprocess.TimeoutExpired:
+        p.kill()
+        out, err = p.communicate()
+        return 124, (out or "").splitlines(), (err or "") + "[wall time-out after %ss]" % wall, True
+    finally:
+        if abort:
+            with HANG.lock:
+                HANG.procs.discard(p)
+    if abort and p.returncode in (-9, -15) and abort():
+        ls = (out or "").splitlines()
+        if ls and not (out or "").endswith("\n"):
+            ls = ls[:-1]                            # a line cut by the kill is not an output
+        return -1000, ls, (err or "") + "[stopped: run-wide hang cap]", False
+    return p.returncode, out.splitlines(), err, False
 
 
 NO_RETURN = "DOES-NOT-RETURN"
@@ -1556,7 +1557,16 @@ class HangState:
         self.crashes = {}            # call form -> count
         self.banned = set()          # call forms not driven any more in this run
         self.stopped = False
+        self.procs = set()           # running stream processes (killed when the run-wide cap is reached)
         self.log = []
+
+    def kill_streams(self):
+        """called with the lock held, when the cap is reached: every running stream process stops now"""
+        for q in list(self.procs):
+            try:
+                q.kill()
+            except OSError:
+                pass
 
 
 HANG = HangState()
@@ -1623,8 +1633,9 @@ def run_chunk(binary, lines, wall, restart=True, cpu=None):
             form = form_of(lines[ix])
             with HANG.lock:
                 HANG.overruns += 1
-                if HANG.overruns >= MAX_OVERRUN:
+                if HANG.overruns >= MAX_OVERRUN and not HANG.stopped:
                     HANG.stopped = True
+                    HANG.kill_streams()
                 do_confirm = form not in HANG.banned and HANG.confirmations < MAX_CONFIRM
                 if do_confirm:
                     HANG.confirmations += 1
@@ -1897,7 +1908,7 @@ def main(tier, replay=None):
     iout = [None] * len(cases)
     with ThreadPoolExecutor(len(binaries)) as ex:
         futs = {p: ex.submit(run_split, binaries[p], [line(cases[i][0], cases[i][1], cases[i][2]) for i in idx[p]],
-                             max(1, ncpu // 3), 2400) for p in binaries}
+                             max(1, ncpu // 3), 600) for p in binaries}
         for p in binaries:
             st, out, err = futs[p].result()
             if st == "hang-cap":
@@ -1927,7 +1938,7 @@ def main(tier, replay=None):
     midx = [i for i, (v, K, a) in enumerate(cases) if VARIANTS[v]["model"] and i not in NO_MODEL]
     mout = {}
     if drv:
-        st, out, err = run_split(drv, [line(VARIANTS[cases[i][0]]["model"], cases[i][1], model_args(*cases[i])) for i in midx], ncpu, 3000,
+        st, out, err = run_split(drv, [line(VARIANTS[cases[i][0]]["model"], cases[i][1], model_args(*cases[i])) for i in midx], ncpu, 1200,
                                  restart=False, cpu=2400)
         if st in ("wall-timeout", "cpu-limit"):
             inconclusive.append("the extracted model driver: stream %s; %d of %d model results are missing and those cases were not "
